@@ -14,7 +14,7 @@ YOUR TASK: write a small, realistic source change to the project (the kind of sl
  (2) the existing test-suite result is unchanged: run `cargo test --workspace --no-fail-fast --offline` in the worktree; on the unmodified tree exactly the 75 tests listed under "stable_pass" in /root/.vp/BASELINE.json pass (the many other tests fail already, because they need the alpha feature) — after your change those same 75 must still pass,
  (3) the breakage needs something SPECIFIC to manifest — an unusual input, a particular multi-step combination, two cooperating sites that each look fine alone, a boundary value, a particular nesting — NOT something that ordinary use (e.g. compiling any hello-world or any of the sample programs in examples/ or tests/samples/valid) would expose at once.
 
-Then write a DEMONSTRATION: a small self-contained script `demo.sh` (plus any input files it needs, in a directory /tmp/wt_{pid}/demo/) that exits 0 on the unmodified tree and exits non-zero with your change applied, by driving the real compiler/library on a concrete input and checking the observable behaviour the property talks about (error codes, printed output of the compiled program, tokens, etc.). Verify BOTH directions yourself (use `git stash` / `git stash pop` or `git diff > patch.diff; git checkout -- .; ...; git apply patch.diff`).
+Then write a DEMONSTRATION: a small self-contained script `demo.sh` (plus any input files it needs, in a directory /tmp/wt_{pid}/demo/) that exits 0 on the unmodified tree and exits non-zero with your change applied, by driving the real compiler/library on a concrete input and checking the observable behaviour the property talks about (error codes, printed output of the compiled program, tokens, etc.). Verify BOTH directions yourself (use `git diff > demo/patch.diff; git checkout -- src; ...; git apply demo/patch.diff`; do NOT use `git stash`: the stash is shared by all worktrees of the repository and other people work in sibling worktrees).
 
 How to build and run the first-generation compiler in this sandbox (no network): put the wrapper first on PATH and enable the features:
     export PATH=/tmp/llvmwrap/bin:$PATH
